@@ -148,7 +148,14 @@ func (c *Channel) Deliver(out, x []byte) ([]byte, error) {
 		if isInitHello {
 			helloID = blake2b.Sum256(x)
 		}
-		for i, se := range c.sessions {
+		// Handshake messages concern the prospective session first: an established responder session would
+		// otherwise answer the InitDone of a newer handshake with its own cached RespDone.
+		order := [3]int{0, 1, 2}
+		if !IsPostHandshake(x) {
+			order = [3]int{2, 1, 0}
+		}
+		for _, i := range order {
+			se := c.sessions[i]
 			s := se.Session
 			if s == nil {
 				continue
